@@ -37,6 +37,11 @@ func runC20(k int, rng *Rng) CaseResult {
 		if rng.P(0.25) {
 			chain = append(chain, qs[rng.Intn(len(qs))])
 		}
+		if rng.P(0.2) {
+			// a refinement of a search that matched everything (the
+			// refinement then works on the whole collection)
+			chain = []Query{{"Tag", ">=", -1}, qs[rng.Intn(len(qs))]}
+		}
 		desc := chainString(chain)
 		// evaluate s, and a twin collected immediately (M0)
 		var s *sod.Search
